@@ -145,10 +145,10 @@ func TestC11(t *testing.T) {
 	n := cfg.N(480, 16000)
 	var freed, fullTotal, sendsTotal int64
 	for i := 0; i < n; i++ {
-		if !cfg.Mine(i) {
+		seed := cfg.CaseSeed("C11", i)
+		if !cfg.Want(i, seed) {
 			continue
 		}
-		seed := cfg.CaseSeed("C11", i)
 		rig.SetWatchdogContext(fmt.Sprintf("C11 case %d seed %d", i, seed))
 		rig.RunCase(t, seed, rig.Opts{}, func(e *rig.Env) {
 			r := e.Rand
